@@ -74,8 +74,10 @@ RustDisc(def, k) == IF def.vs[k].src = "disc" THEN def.vs[k].val
 RustValid(def) ==
   CASE def.kind = "enum" ->
          /\ \A a, b \in 1..Len(def.vs) : a # b => RustDisc(def, a) # RustDisc(def, b)
-         \* explicit discriminants next to data-carrying variants need a primitive repr: not generated
-         /\ (\E k \in 1..Len(def.vs) : def.vs[k].src = "disc") => \A k \in 1..Len(def.vs) : Len(def.vs[k].fs) = 0
+         \* explicit discriminants next to data-carrying variants need a primitive repr: the generator writes #[repr(u8)],
+         \* under which every discriminant must fit in a byte
+         /\ ((\E k \in 1..Len(def.vs) : def.vs[k].src = "disc") /\ (\E k \in 1..Len(def.vs) : Len(def.vs[k].fs) > 0))
+               => \A k \in 1..Len(def.vs) : RustDisc(def, k) <= 255
     [] OTHER -> TRUE
 
 Valid(def) ==
